@@ -7,7 +7,7 @@ open Lean PebblesVerif.Spec
 
 partial def parseValue (j : Json) : Value :=
   match getStr j "k" with
-  | "var" => .var (getStr j "v")
+  | "var" => .var (getStr j "v") (getStr j "et")
   | "int" => .int (getStr j "v")
   | "float" => .float (getStr j "v")
   | "str" => .str (getStr j "v")
